@@ -388,3 +388,133 @@ Theorem C06_source_resize_clip : forall s e bp size : Z,
   Gen.FnIntervalsResize.fn_resize_sized s e bp size = (clip_to (Some size) (s - bp), clip_to (Some size) (e + bp)) /\
   Gen.FnIntervalsResize.fn_resize_ok s e = (0 <? e - s).
 Proof. exact fn_resize_clip_to. Qed.
+
+(* ==== LOOP TIES (function-body translator, tools/fnspecs/iv_loops.py) ================
+   Loop bodies and per-row decisions of skgenome/subdivide.py, subtract.py and merge.py,
+   translated ONE ITERATION at a time from the source text on every run (Gen/FnIvSplitLoop.v,
+   FnIvSubtract.v, FnIvGroups.v, FnIvFast.v, FnIvInPlay.v); the model's recursions ARE the
+   generated steps iterated. *)
+From CNV Require Import Proofs.FnIvSplitLoop Proofs.FnIvSubtract Proofs.FnIvGroups Proofs.FnIvFast
+  Proofs.FnIvInPlay.
+From CNV Require Gen.FnIvSplitLoop Gen.FnIvSubtract Gen.FnIvGroups Gen.FnIvFast Gen.FnIvInPlay.
+
+(* subdivide._split_targets, the bins of one region: the assignments before the loop, one
+   iteration of `for i in range(1, nbins)` (carried bin_start, the yielded (start, end)) and
+   the closing yield, as generated *)
+Theorem C06_source_split_step : forall (s e : Z) (bsz : Q) (i bs span n : Z),
+  Gen.FnIvSplitLoop.fn_split_init span n s = (Qdiv (inject_Z span) (inject_Z n), s) /\
+  Gen.FnIvSplitLoop.fn_split_step s e bsz i bs = (s + cut_exact bsz i, [(bs, s + cut_exact bsz i)]) /\
+  Gen.FnIvSplitLoop.fn_split_last s e bs = [(bs, e)].
+Proof. exact source_split_parts. Qed.
+
+(* running the generated loop (the step for k consecutive values of i, then the closing yield;
+   every other field of the yielded rows is the region's) IS bins_from with the cut-point
+   oracle read exactly: cut i = int(i * bin_size) *)
+Theorem C06_source_split_loop : forall (A : Type) (s e : Z) (bsz : Q) (p : A) (k : nat) (bin_start i : Z),
+  with_pay p (src_bins s e bsz bin_start i k) = bins_from (cut_exact bsz) s bin_start i k e p.
+Proof. exact @source_split_loop. Qed.
+
+(* the whole region -- the generated rule, then the generated loop over range(1, nbins) -- IS
+   split_row with cut span n i = int(i * (span / n)) *)
+Theorem C06_source_split_bins : forall (A : Type) (avg mn : Z) (r : @row A), 0 < avg ->
+  src_split_row avg mn r = split_row avg mn cut_of_source r.
+Proof. exact @source_split_row. Qed.
+
+(* and those exact cut points meet the arithmetic contract under which C06_subdivide holds *)
+Theorem C06_source_cut_contract : forall span n : Z, 0 <= span -> 0 < n ->
+  cut_contract span n (cut_of_source span n).
+Proof. exact source_cut_contract. Qed.
+
+(* subtract._subtraction, one iteration of `for keeper, rows_to_exclude in by_ranges(...)`: the
+   generated iteration (four edge cases, `continue`, the inner zip loop dropping empty pieces,
+   `yield keeper`), given the excluded rows the way the code reads them, IS subtract_row *)
+Theorem C06_source_subtract_row : forall (A B : Type) (k : @row A) (ex : list (@row B)),
+  with_keeper (pay k)
+    (Gen.FnIvSubtract.fn_subtract_step (lo k) (hi k) (Z.of_nat (length ex)) (map lo ex) (cummax (map hi ex)))
+  = subtract_row k ex.
+Proof. exact @source_subtract_row. Qed.
+
+Theorem C06_source_subtract : forall (A B : Type) (a : list (@row A)) (b : list (@row B)),
+  subtract a b =
+  flat_map (fun k =>
+              let ex := filter (overlaps (lo k) (hi k)) b in
+              with_keeper (pay k)
+                (Gen.FnIvSubtract.fn_subtract_step (lo k) (hi k) (Z.of_nat (length ex)) (map lo ex)
+                                                   (cummax (map hi ex))))
+           a.
+Proof. exact @source_subtract. Qed.
+
+(* merge._nonoverlapping_groups: groups IS itertools.groupby over the cumulative sum of the
+   generated break test `gap_sizes > -bp` along the table *)
+Theorem C06_source_groups : forall (A : Type) (bp : Z) (rows : list (@row A)),
+  groups bp rows = groupby (combine (src_group_keys bp rows) rows).
+Proof. exact @source_groups. Qed.
+
+(* the fast paths of merge() / flatten(): the generated tests at every row after the first *)
+Theorem C06_source_all_gaps : forall (A : Type) (bp : Z) (t : list (@row A)),
+  all_gaps bp t =
+  match t with [] => true | r :: t' => src_all (fun s c => Gen.FnIvFast.fn_merge_fast s c bp) (hi r) t' end.
+Proof. exact @source_all_gaps. Qed.
+
+Theorem C06_source_no_overlap : forall (A : Type) (d : Z) (t : list (@row A)),
+  no_overlap t =
+  match t with [] => true | r :: t' => src_all (fun s c => Gen.FnIvFast.fn_flatten_fast s c d) (hi r) t' end.
+Proof. exact @source_no_overlap. Qed.
+
+(* _flatten_tuples / _flatten_tuples_split: rows_in_play is the filter by the generated test *)
+Theorem C06_source_in_play : forall (A : Type) (d : Z) (g : list (@row A)) (s e : Z),
+  in_play g s e = filter (fun r => Gen.FnIvInPlay.fn_in_play d (lo r) (hi r) s e) g /\
+  in_play g s e = filter (fun r => Gen.FnIvInPlay.fn_in_play_split d (lo r) (hi r) s e) g.
+Proof. exact @source_in_play. Qed.
+
+(* intersection(mode="trim"): one iteration of intersect.iter_ranges read for one selected row
+   (Gen/FnRangesIter.v, the module of C07's loop tie): trim_row IS the generated iteration in mode
+   "trim" with the query's bounds; intersect_chunks is that over the rows overlapping each query *)
+From CNV Require Import Proofs.FnIvTrim.
+From CNV Require Gen.FnRangesIter.
+
+Theorem C06_source_trim_row : forall (A : Type) (qs qe d1 d2 : Z) (r : @row A),
+  trim_row qs qe r = src_trim_row qs qe d1 d2 r.
+Proof. exact @source_trim_row. Qed.
+
+Theorem C06_source_intersect_chunks : forall (A B : Type) (d1 d2 : Z) (a : list (@row A)) (b : list (@row B)),
+  intersect_chunks a b =
+  filter (fun c => negb (Nat.eqb (length c) 0))
+         (map (fun q => map (src_trim_row (lo q) (hi q) d1 d2) (filter (overlaps (lo q) (hi q)) a)) b).
+Proof. exact @source_intersect_chunks. Qed.
+
+(* merge._squash_tuples, whole body (Gen/FnIvSquash.v): squash -- what merge makes of each group of
+   overlapping rows -- IS the generated function on the group's size, its first row and the combined
+   row (first start, largest end, combined payload), through any encoding of rows as opaque values *)
+From CNV Require Import Proofs.FnIvSquash Proofs.FnIvFlatten.
+From CNV Require Gen.FnIvSquash Gen.FnIvFlatten.
+
+Theorem C06_source_squash : forall (A : Type) (comb : A -> list A -> A) (enc : @row A -> Z) (d1 d2 : Z)
+    (r : @row A) (g : list (@row A)),
+  map enc (squash comb (r :: g)) =
+  [Gen.FnIvSquash.fn_squash_tuples d1 (Z.of_nat (length (r :: g))) (enc r) d2 (enc (combined_row comb r g))].
+Proof. exact @source_squash. Qed.
+
+Theorem C06_source_merge_slow : forall (A : Type) (comb : A -> list A -> A) (enc : @row A -> Z) (d1 d2 bp : Z)
+    (t : list (@row A)),
+  map enc (merge_slow comb bp t) =
+  flat_map (fun grp => match grp with
+                       | [] => []
+                       | r :: g => [Gen.FnIvSquash.fn_squash_tuples d1 (Z.of_nat (length grp)) (enc r) d2
+                                      (enc (combined_row comb r g))]
+                       end)
+           (groups bp (sort_rows t)).
+Proof. exact @source_merge_slow. Qed.
+
+(* merge._flatten_tuples / _flatten_tuples_split, the generator's body (Gen/FnIvFlatten.v): the
+   coordinates of flatten_group -- a single row as it is, otherwise one piece per pair of consecutive
+   breakpoints, zip(breaks[:-1], breaks[1:]) -- ARE what the generated body yields on the model's
+   breakpoints *)
+Theorem C06_source_flatten_group : forall (A : Type) (comb : A -> list A -> A) (d1 d2 d3 d4 d5 : Z)
+    (f : @row A) (rest : list (@row A)),
+  let g := f :: rest in
+  coords (flatten_group comb g) =
+    Gen.FnIvFlatten.fn_flatten_tuples d1 (Z.of_nat (length g)) d2 (lo f) (hi f) d3 (breaks g) d4 d5 /\
+  coords (flatten_group comb g) =
+    Gen.FnIvFlatten.fn_flatten_tuples_split d1 (Z.of_nat (length g)) d2 (lo f) (hi f) d3 (breaks g) d4 d5.
+Proof. exact @source_flatten_group. Qed.
